@@ -1850,6 +1850,48 @@ def m_saturating(I, st, t, args, site, depth):
     return [(st, res)]
 
 
+def m_try_from_int(I, st, t, args, site, depth):
+    """<uN as TryFrom<uM>>::try_from: Ok(x) when x fits, Err otherwise (unsigned targets only)"""
+    tgt = (t.callee.self_ty or "").split("::")[-1]
+    if tgt not in INT_BITS or tgt.startswith("i") or not args:
+        return None
+    x = args[0]
+    hi = (1 << INT_BITS[tgt]) - 1
+    d = I.decide_cmp(st, "Le", x, hi, "u128")
+    out = []
+    if d is not False:
+        s1 = st if d is True else st.fork()
+        if d is True or I.assume_cmp(s1, "Le", x, hi, True, "u128"):
+            if d is not True:
+                s1.add_pc(("cmp", "Le", tform(x), hi, "u128"), True, site)
+            out.append((s1, Ok(x)))
+    if d is not True:
+        s2 = st if d is False else st.fork()
+        if d is False or I.assume_cmp(s2, "Gt", x, hi, True, "u128"):
+            if d is not False:
+                s2.add_pc(("cmp", "Le", tform(x), hi, "u128"), False, site)
+            out.append((s2, Err(("tryfrom_error", site))))
+    return out or None
+
+
+def m_from_int(I, st, t, args, site, depth):
+    """<uN as From<uM>>::from (lossless widening): the value itself"""
+    tgt = (t.callee.self_ty or "").split("::")[-1]
+    src = [a.split("::")[-1] for a in (t.callee.targs or [])]
+    if tgt in INT_BITS and args and any(a in INT_BITS or a == "bool" for a in src) and len(args) == 1:
+        return [(st, args[0])]
+    return None
+
+
+def m_unwrap_or(I, st, t, args, site, depth):
+    v = args[0]
+    if isinstance(v, Struct) and v.variant in ("Ok", "Some"):
+        return [(st, v.get("0"))]
+    if isinstance(v, Struct) and v.variant in ("Err", "None"):
+        return [(st, args[1])]
+    return None
+
+
 def m_default(I, st, t, args, site, depth):
     sty = t.callee.self_ty or ""
     if sty in INT_BITS:
@@ -1939,6 +1981,10 @@ DEFAULT_MODELS = {
     "std::cmp::max": m_min,
     "std::cmp::Ord::min": m_min,
     "std::cmp::Ord::max": m_min,
+    "std::convert::TryFrom::try_from": m_try_from_int,
+    "std::convert::From::from": m_from_int,
+    "std::option::Option::unwrap_or": m_unwrap_or,
+    "std::result::Result::unwrap_or": m_unwrap_or,
     "std::option::Option::unwrap": m_unwrap,
     "std::option::Option::expect": m_unwrap,
     "std::result::Result::unwrap": m_unwrap,
